@@ -242,6 +242,12 @@ func (dw *DiskWriter) requestAsyncFileData(p, dest string, fi os.FileInfo, st *t
 		}); err != nil {
 			return err
 		}
+		// writing the content as a process without CAP_FSETID clears set-uid/set-gid
+		if m := os.FileMode(st.Mode); m&(os.ModeSetuid|os.ModeSetgid) != 0 {
+			if err := os.Chmod(dest, m); err != nil {
+				return errors.WithStack(err)
+			}
+		}
 		return chtimes(dest, st.ModTime) // TODO: parent dirs
 	})
 }
